@@ -1019,6 +1019,15 @@ class Models:
 
     def pydict_update(self, eng, d, args, kw, st, node):
         o = args[0]
+        if isinstance(o, V) and isinstance(o.kind, Ref) and o.kind.cls == "Params" and "Params" in eng.schema:
+            # a plain dict of string keys updated from a parameter object: from here on it is a parameter mapping itself
+            h = eng.schema_lookup("Params", "methods", "update")
+            newp = eng.new_object(st, "Params", "dictparams")
+            for st1, _ in h(eng, st, newp, [d], {}, node):
+                for st2, _ in h(eng, st1, newp, [o], {}, node):
+                    for st3 in self.write_back(eng, node, newp, st2):
+                        yield st3, NONE
+            return
         if not isinstance(o, VDict):
             raise Untranslatable("update of python-level dict with symbolic map", node)
         for st1 in self.write_back(eng, node, VDict({**d.items, **o.items}), st):
